@@ -34,8 +34,17 @@ def query_guards(ctx, rule="R-C05.G.query"):
         return
     len_guard(ctx, rule, f, ("input", 2), "input_len")
     len_guard(ctx, rule, f, ("proof", 3), "proof_len")
-    len_guard(ctx, rule, f, ("query_rand", 4), "query_rand_len")
+    qe = len_guard(ctx, rule, f, ("query_rand", 4), "query_rand_len")
     len_guard(ctx, rule, f, ("joint_rand", 5), "joint_rand_len")
+    # the query-randomness length is checked BEFORE the slice is taken apart (split_at panics on a short slice)
+    if qe is not None and hasattr(qe, "block"):
+        g1 = ctx.guards(f)
+        key = "%s:%s:query_rand-length-checked-before-split" % (rule, f.id)
+        splits = [bi for bi, t in f.body.calls() if t.callee.name in ("split_at", "split_at_mut") and t.args and Arg(4)(g1.eb.operand(t.args[0]))]
+        if splits and all(f.body.dominates(qe.block, bi) for bi in splits):
+            ctx.ok(rule, key, "len(query_rand) != query_rand_len() -> Err dominates every query_rand.split_at(..)", loc=f.loc)
+        elif splits:
+            ctx.bad(rule, key, "query_rand is split before its length is checked: a short slice panics instead of being refused", loc=f.loc)
     # gadget part of the query randomness vs number of gadgets
     ge = ctx.require_guard(rule, f, "Ne", Len(Any()), Len(Call("gadget")), desc="len(query_rand_for_gadgets) != len(gadget())")
     gadget_rand = None
